@@ -38,8 +38,9 @@ def BOUND(tier):
 
 def cases(tier):
     for cmd in SIG.DATA_COMMANDS:
-        dts = ("float",) if SIG.input_fuzz(cmd) == "fz" else ("float", "int")
+        dts0 = ("float",) if SIG.input_fuzz(cmd) == "fz" else ("float", "int")
         for n in D.arities(cmd):
+            dts = dts0 + (("float32",) if n <= 2 else ())
             for pi in range(len(D.presets_small(cmd, n))):
                 for dt in dts:
                     for miss in (0, 1):
@@ -50,7 +51,7 @@ def cases(tier):
 def _cells(cmd, dt, n, size, miss):
     if SIG.input_fuzz(cmd) == "fz":
         base = FZ4 if size == 4 else FZ6
-    elif dt == "int":
+    elif dt.startswith("int"):
         base = I4 if size == 4 else I6
     else:
         base = NF4 if size == 4 else NF6
@@ -77,7 +78,8 @@ def run(case):
     viols = []
     outcomes = {}
     evals = judged = nontriv = 0
-    tol = 1e-12 if cmd in STAT else 0.0
+    # statistics over the whole array depend on the summation order: 1e-12 relative in double precision, 1e-5 for single-precision data
+    tol = (1e-5 if dt == "float32" else 1e-12) if cmd in STAT else 0.0
     base = D.execute(cmd, [D.mk_array(c, dtype=dt) for c in cols], params)
     evals += 1
     tag0 = {"cmd": cmd, "params": params, "dtype": dt, "inputs": [[str(x) for x in c] for c in cols]}
